@@ -57,17 +57,43 @@ ASSUME("mako.runtime:TemplateNamespace.__init__",
        params={"self": "TemplateNamespace", "name": "Str", "context": "Context", "template": "Opt[Obj[Template]]",
                "templateuri": "Opt[Str]", "callables": "Any", "inherits": "Opt[Obj[Namespace]]",
                "populate_self": "Bool", "calling_uri": "Opt[Str]"},
-       requires=[("no-populate", "not populate_self"), ("by-template", "template is not None and templateuri is None")],
+       requires=[("one-source", "template is not None or templateuri is not None")],
        modifies=["ptr(self.name)", "ptr(self.context)", "ptr(self.inherits)", "ptr(self.template)", "ptr(self._templateuri)"],
        ensures=[("name", "self.name == name"), ("context", "same(self.context, context)"),
-                ("inherits", "same(self.inherits, inherits)"), ("template", "same(self.template, template)")],
-       raises={},
-       note="TemplateNamespace(name, ctx, template=t, populate_self=False): plain field stores (verified as C06.ns.init)")
+                ("inherits", "same(self.inherits, inherits)"),
+                ("given-template", "implies(templateuri is None, same(self.template, template))"),
+                ("looked-up-relative-to-the-caller",
+                 "implies(templateuri is not None, context._with_template is not None and context._with_template.lookup is not None and same(self.template, looked_up(context._with_template.lookup, adjusted_uri(templateuri, calling_uri))))")],
+       raises={"TemplateLookupException": {"when": "templateuri is not None"}, "*": {"when": "templateuri is not None or populate_self"}},
+       note="TemplateNamespace.__init__: field stores; with templateuri= the template comes from _lookup_template(context, templateuri, calling_uri) (verified: C07); with populate_self the self namespace is populated")
+
+C("mako.runtime:Namespace.get_namespace",
+  params={"self": "Namespace", "uri": "Str"}, returns="Namespace",
+  modifies=["self.context.namespaces"],
+  ensures=[("memoised-per-calling-namespace-and-uri",
+            "box_pair(self, uri) in self.context.namespaces and same(result, self.context.namespaces[box_pair(self, uri)])"),
+           ("hit-returns-the-memo",
+            "implies(box_pair(self, uri) in old(self.context.namespaces), same(result, old(self.context.namespaces)[box_pair(self, uri)]) and self.context.namespaces == old(self.context.namespaces))"),
+           ("miss-resolves-against-this-namespaces-template",
+            "implies(box_pair(self, uri) not in old(self.context.namespaces), fresh(result) and same(ns_template(result), looked_up(self.context._with_template.lookup, adjusted_uri(uri, self._templateuri))))"),
+           ("other-entries-kept",
+            "forall(lambda k: implies(not same(k, box_pair(self, uri)), (k in self.context.namespaces) == (k in old(self.context.namespaces)) and same(self.context.namespaces[k], old(self.context.namespaces)[k])), ty='Any')")],
+  raises={"TemplateLookupException": {}, "*": {}},
+  props=["C07"], native_skip=True)
+
+C("mako.runtime:Namespace.get_template",
+  params={"self": "Namespace", "uri": "Str"}, returns="Template",
+  requires=[("has-template", "self.context._with_template is not None")],
+  ensures=[("relative-to-this-namespaces-template",
+            "same(result, looked_up(self.context._with_template.lookup, adjusted_uri(uri, self._templateuri)))")],
+  raises={"TemplateLookupException": {}, "IndexError": {"when": "len(uri) == 0"}, "*": {}},
+  props=["C07"], native_skip=True)
 
 FUNSPEC("mako_inherit",
         params={"template": "Template", "ctx": "Context"}, returns="Opt[Tuple[Fun[render_callable],Context]]",
         modifies=["ctx._data", "heap('f:Namespace.inherits')"] + INH_G,
         ensures=[("logged", "G.inh_truthy == (result is not None) and implies(result is not None, same(G.inh_callable, result[0]) and same(G.inh_ctx, result[1]))"),
+                 ("existing-links-kept", "forall(lambda n: implies(0 < n and n < old(alloc) and old(ns_inherits(n)) is not None, same(ns_inherits(n), old(ns_inherits(n)))))"),
                  ("only-parent-changes",
                   "forall(lambda k: implies(k != 'parent', (k in ctx._data) == (k in old(ctx._data)) and same(ctx._data[k], old(ctx._data)[k])), ty='Str')"),
                  ("result-context-is-new-or-the-given-one",
@@ -234,3 +260,36 @@ C("mako.runtime:_render",
                                 "ensures": [("before-any-template-code-runs", "G.ncalls == old(G.ncalls)")]},
           "*": {"ensures": [("reserved-names-rejected-first", "implies(%s, G.ncalls == old(G.ncalls))" % _RESERVED_HIT)]}},
   props=["C04", "C18"], native_skip=True)
+
+# ---------------------------------------------------------------------------------------
+# C06: building the inheritance chain
+
+C("mako.runtime:_inherit_from",
+  params={"context": "Context", "uri": "Opt[Str]", "calling_uri": "Opt[Str]"},
+  returns="Opt[Tuple[Fun[render_callable],Context]]",
+  requires=[("has-template", "context._with_template is not None"),
+            ("self-namespace-present", "'self' in context._data and context._data['self'] is not None"),
+            ("chain-is-finite", "finite_chain()")],
+  modifies=["context._data", "heap('f:Namespace.inherits')", "fresh_heap('f:Namespace.name')", "fresh_heap('f:Namespace.context')",
+            "fresh_heap('f:Namespace.template')", "fresh_heap('f:Namespace._templateuri')", "fresh_heap('f:Context._data')",
+            "context.namespaces"] + INH_G,
+  loops={0: {"inv": [("walking-the-chain-of-self", "ih is not None and chain_end(ih) == chain_end(self_ns)", "P"),
+                     ("nothing-changed-yet", "context._data == old(context._data)")],
+             "modifies": [], "variant": "ns_depth(ih)"}},
+  locals={"self_ns": "Namespace", "ih": "Namespace"},
+  ensures=[("no-uri-no-inheritance", "implies(uri is None, result is None and context._data == old(context._data))"),
+           ("new-base-is-appended-at-the-end-of-the-chain",
+            "implies(uri is not None, fresh(ns_inherits(old_chain_end(context))) and same(ns_template(ns_inherits(old_chain_end(context))), looked_up(context._with_template.lookup, adjusted_uri(uri, calling_uri))))"),
+           ("parent-is-the-new-base", "implies(uri is not None, 'parent' in context._data and same(context._data['parent'], ns_inherits(old_chain_end(context))))"),
+           ("base-context-has-next-and-local",
+            "implies(uri is not None, same(ns_context(ns_inherits(old_chain_end(context)))._data['next'], old_chain_end(context)) and same(ns_context(ns_inherits(old_chain_end(context)))._data['local'], ns_inherits(old_chain_end(context))))"),
+           ("existing-links-kept", "forall(lambda n: implies(0 < n and n < old(alloc) and old(ns_inherits(n)) is not None, same(ns_inherits(n), old(ns_inherits(n)))))"),
+           ("only-parent-changes-in-the-callers-context",
+            "forall(lambda k: implies(k != 'parent', (k in context._data) == (k in old(context._data)) and same(context._data[k], old(context._data)[k])), ty='Str')"),
+           ("answer-is-the-base-most-body",
+            "implies(uri is not None and result is not None and ns_template(ns_inherits(old_chain_end(context))).module._mako_inherit is None, same(result[0], ns_template(ns_inherits(old_chain_end(context))).callable_) and same(result[1], ns_context(ns_inherits(old_chain_end(context)))))"),
+           ("never-none-once-a-base-exists", "implies(uri is not None, result is not None)"),
+           ("deeper-answer-wins",
+            "implies(uri is not None and ns_template(ns_inherits(old_chain_end(context))).module._mako_inherit is not None, ite(G.inh_truthy, same(result[0], G.inh_callable) and same(result[1], G.inh_ctx), same(result[0], ns_template(ns_inherits(old_chain_end(context))).callable_)))")],
+  raises={"*": {}},
+  props=["C06"], native_skip=True)
